@@ -426,6 +426,23 @@ func TestVerifC03(t *testing.T) {
 		{"server-stopped-exception", func(env *rcEnv, req *verifsim.Request) {
 			env.sc.SendException(req.CallID, "org.apache.hadoop.hbase.regionserver.RegionServerStoppedException", "stopped")
 		}},
+		// the server-fatal exception arrives INSIDE a multi response, for one action (the first request of the q=3 runs is a
+		// multi; an unbatched first request gets it as the call's exception)
+		{"server-stopped-exception-for-one-action-of-a-multi", func(env *rcEnv, req *verifsim.Request) {
+			if req.Method == "Multi" {
+				tags := rcTags(req)
+				env.respondMulti(req, multiPlan{actionExc: map[string]string{tags[0]: "org.apache.hadoop.hbase.regionserver.RegionServerStoppedException"}})
+				return
+			}
+			env.sc.SendException(req.CallID, "org.apache.hadoop.hbase.regionserver.RegionServerStoppedException", "stopped")
+		}},
+		{"server-aborted-exception-for-one-region-of-a-multi", func(env *rcEnv, req *verifsim.Request) {
+			if req.Method == "Multi" {
+				env.respondMulti(req, multiPlan{regionExc: map[int]string{0: "org.apache.hadoop.hbase.regionserver.RegionServerAbortedException"}})
+				return
+			}
+			env.sc.SendException(req.CallID, "org.apache.hadoop.hbase.regionserver.RegionServerAbortedException", "aborting")
+		}},
 	}
 	for _, d := range deaths {
 		for _, q := range []int{1, 3} {
@@ -443,6 +460,15 @@ func TestVerifC03(t *testing.T) {
 				for i := 0; i < 4; i++ {
 					env.goQueue(env.newCall(fmt.Sprintf("d%d", i), []string{"get", "put"}[i%2], q > 1 && i != 2))
 					time.Sleep(3 * time.Millisecond)
+				}
+				if d.name != "read-timeout" {
+					// the stream is unusable (or the server said it is going away): the connection is failed NOW, not when the read
+					// timeout (1 s) of the requests that are still outstanding happens to expire
+					time.Sleep(300 * time.Millisecond)
+					rcSettle()
+					if !env.isDone() {
+						rep.bad("unusable-stream-not-failed", "%s: 300 ms after the server's answer the connection is not failed (requests outstanding: %v)", nm, env.pending())
+					}
 				}
 				time.Sleep(2 * time.Second)
 				rcSettle()
